@@ -6,7 +6,7 @@ out = tempfile.mktemp(suffix=".xml", dir="/var/tmp")
 env = dict(os.environ); env.pop("MITMPROXY_VERIF", None)
 cmd = base["cmd"].replace("<file>", out)
 if len(sys.argv) > 1: cmd += " " + " ".join(sys.argv[1:])
-subprocess.run(cmd, shell=True, env=env, stdout=subprocess.DEVNULL, stderr=subprocess.DEVNULL)
+subprocess.run(cmd.replace("cd /repo", "cd " + os.environ.get("BASELINE_REPO", "/repo")), shell=True, env=env, stdout=subprocess.DEVNULL, stderr=subprocess.DEVNULL)
 passed = set()
 for tc in ET.parse(out).getroot().iter("testcase"):
     if not any(c.tag in ("failure", "error", "skipped") for c in tc):
